@@ -312,7 +312,7 @@ fn compatible_kind(kind: &str) -> &'static str {
         "PostNote" => "ClearNote",
         "ClearNote" => "PostNote",
         "Init" => "AddDevice",
-        _ => "Bogus",
+        _ => "SetCounter",
     }
 }
 
@@ -580,6 +580,7 @@ const MUTATIONS: &[&str] = &[
     "payload-bit",
     "payload-swap",
     "kind",
+    "kind-unknown",
     "parent",
     "author",
     "id-bit",
@@ -635,6 +636,10 @@ fn mutate(
         "kind" => {
             p.kind = compatible_kind(&p.kind).to_string();
             note = json!({"new_kind": p.kind});
+        }
+        "kind-unknown" => {
+            p.kind = "Bogus".to_string();
+            note = json!("a command name the policy does not define");
         }
         "parent" => {
             // Another existing command of the receiving replica, with its real max cut.
@@ -1073,8 +1078,8 @@ fn main() {
     }
 
     let threads = cores();
-    let worlds_per_shard = args.n(1, 8);
-    let rounds = args.n(10, 40);
+    let worlds_per_shard = args.n(12, 200);
+    let rounds = args.n(16, 30);
     let base = Rng::new(args.seed).fork(35);
     let results = par_shards(threads, |i, _| {
         let mut w = m.worker();
